@@ -164,7 +164,8 @@ def jobs_spec_views(rng, tier, names, quick=14, thorough=150, nmax=8, minn=None,
             js += both_mode_corr(e, xs, ["A"] if nm in acc else [], n=n)[: 2 if fmode else 1]
         # larger windows (buffers that change representation with size, power-of-two effects): N = 16 ... 128
         if "n" in gen.CATALOGUE[nm]["params"]:
-            for n in rng.sample([16, 31, 32, 33, 64, 65, 100, 128], scale_n(tier, 3, 8)):
+            # (… and past 255 / 256, where a counter or an index narrowed to u8 would wrap)
+            for n in rng.sample([16, 31, 32, 33, 64, 65, 100, 128, 255, 256, 257, 300], scale_n(tier, 4, 12)):
                 e = mk(nm, ECHO, gen.gen_params(rng, nm, nmax, n=n))
                 fam, xs = stream_for(rng, e, n + rng.randint(n // 2 + 3, n + 8), fams)
                 if big_exact:
@@ -1490,14 +1491,26 @@ class Heap(Job):
     """live heap bytes owned by the view after L and after 4L values must be equal, and consistent with the model's size"""
     kind = "heap"
 
-    def __init__(self, e, L, seed):
-        self.e, self.L, self.seed = e, L, seed
+    def __init__(self, e, L, seed, style="random"):
+        self.e, self.L, self.seed, self.style = e, L, seed, style
 
     def ops(self):
         rng = random.Random(self.seed)
         pos = gen.needs_positive(self.e)
         pos = pos or "div" in gen.tree_names(self.e)
         mkv = lambda: F(rng.randint(1 if pos else -512, 512), 8)
+        if self.style == "quantised":
+            # a few levels, exact zeros, long flat stretches and exact repeats N steps apart: a buffer that is only trimmed on
+            # the "ordinary" path (no tie, non-zero base, non-flat window) grows here
+            levels = [F(1), F(2), F(3)] if pos else [F(0), F(0), F(1), F(-1), F(2)]
+            state = {"v": levels[0], "run": 0}
+            def mkq():
+                if state["run"] <= 0:
+                    state["v"] = rng.choice(levels)
+                    state["run"] = rng.choice([1, 1, 1, 2, 3, 8, 40])
+                state["run"] -= 1
+                return state["v"]
+            mkv = mkq
         return ["U " + enc_f(mkv()) for _ in range(self.L)] + ["Z"] + ["U " + enc_f(mkv()) for _ in range(3 * self.L)] + ["Z"]
 
     def impl_rel_cases(self):
@@ -1524,14 +1537,14 @@ class Heap(Job):
         return None
 
     def nontrivial_key(self, impl):
-        return (gen.render(self.e, "q"), self.L)
+        return (gen.render(self.e, "q"), self.L, self.style)
 
     def to_json(self):
-        return dict(kind=self.kind, e=jexpr(self.e), L=self.L, seed=self.seed)
+        return dict(kind=self.kind, e=jexpr(self.e), L=self.L, seed=self.seed, style=self.style)
 
     @staticmethod
     def from_json(d):
-        return Heap(uexpr(d["e"]), d["L"], d["seed"])
+        return Heap(uexpr(d["e"]), d["L"], d["seed"], d.get("style", "random"))
 
 
 JOB_KINDS["heap"] = Heap
@@ -1553,6 +1566,8 @@ def jobs_C18(rng, tier):
             for L in Ls:
                 if L >= 4 * gen.window_of(e) + 16:
                     js.append(Heap(e, L, rng.randrange(10 ** 9)))
+            if Ls[0] >= 4 * gen.window_of(e) + 16:
+                js.append(Heap(e, Ls[0], rng.randrange(10 ** 9), style="quantised"))
     for _ in range(scale_n(tier, 60, 500)):
         # (trees in which no node can leave its domain: a 0/0 or ln(0) deep inside a chain is a NaN in the release build, and
         # what a view does with NaN input is outside every property — harmless rewrite H02, a monotonic deque under Min, keeps
